@@ -1893,6 +1893,14 @@ Lemma gen_bgsave_flag_discipline :
   Generated.rdb_bgsave_sets_flag_before_spawn = true /\ Generated.rdb_bgsave_clears_flag_after_match = true.
 Proof. split; reflexivity. Qed.
 
+(** saves are serialised (aa75b1d): save() holds the save lock from before write_snapshot (which
+    opens, writes and closes the temporary file) to its end, rename included, and nothing else
+    calls write_snapshot - so no two saves ever share the temporary file, and each save is the
+    undisturbed attempt of [run_attempt], which is what [dump_always_complete] quantifies over *)
+Lemma gen_saves_serialised :
+  Generated.rdb_save_serialised = true /\ Generated.rdb_write_snapshot_callers = [bs "save"].
+Proof. split; reflexivity. Qed.
+
 (** ------------------------------------------------------------------ *)
 (** * C10 (2): value/TTL of one key under a concurrent save *)
 Lemma states_of_reaches l : forall s l', In (fold_left cstep l s) (states_of s (l ++ l')).
